@@ -829,6 +829,34 @@ func (x *Exec) freshLogEntry(st *State, name string) {
 	}
 	fn := x.logFuncs[name]
 	if fn == nil {
+		// an interface method "(pkg/path.Iface).Method": arguments (receiver first) and results from its signature
+		if strings.HasPrefix(name, "(") {
+			if i := strings.Index(name, ")."); i > 0 {
+				if T := x.lookupType(name[1:i]); T != nil {
+					if it, ok := T.Underlying().(*types.Interface); ok {
+						for k := 0; k < it.NumMethods(); k++ {
+							if m := it.Method(k); m.Name() == name[i+2:] {
+								sig := m.Type().(*types.Signature)
+								if _, ok := st.calls[name]; !ok {
+									as := []Value{x.freshValue(st, "logarg", T)}
+									for p := 0; p < sig.Params().Len(); p++ {
+										as = append(as, x.freshValue(st, "logarg", sig.Params().At(p).Type()))
+									}
+									st.calls[name] = as
+								}
+								if _, ok := st.calls[name+"#ret"]; !ok {
+									var rs []Value
+									for r := 0; r < sig.Results().Len(); r++ {
+										rs = append(rs, x.freshValue(st, "logret", sig.Results().At(r).Type()))
+									}
+									st.calls[name+"#ret"] = rs
+								}
+							}
+						}
+					}
+				}
+			}
+		}
 		return
 	}
 	if _, ok := st.calls[name]; !ok {
